@@ -68,10 +68,16 @@ def random_strings(rng, n):
     return out
 
 
-def reference_match(pat, pkg, name):
+def reference_match(pat, pkg, name, cur=None):
     """Reference matcher for canonical pattern spellings, written from the documentation:
        //p/... (p and below, at component boundaries), //... (everything), //p:all, //p:name, with optional
        :name / :all after a recursive pattern.  Returns None when `pat` is not one of these spellings."""
+    if pat.startswith(":") and cur is not None:
+        # relative pattern: the current package only (":all" / ":..." = every target of it, non-recursively)
+        t = pat[1:]
+        if t == "" or ":" in t:
+            return None
+        return pkg == cur and (t in ("all", "...") or name == t)
     if not pat.startswith("//"):
         return None
     body = pat[2:]
@@ -216,7 +222,7 @@ def run(ctx):
         if r["op"] != "pattern.parse" or not x.get("ok"):
             continue
         labs_r = labs if r["uni"] is UNI else labels_of(r["uni"])
-        exp = [reference_match(r["s"], p, n) for p, n in labs_r]
+        exp = [reference_match(r["s"], p, n, r["cur"]) for p, n in labs_r]
         if exp[0] is None:
             continue
         ref_checked += 1
